@@ -1,45 +1,253 @@
 /-
   Props.C06 — unique indexes hold in every reachable state, across every write path.
-  Statements only; proofs in Proofs/C06*.lean.  Model: `MongoModel.stepColl` (insert, update,
-  replace, upsert, insert_many, create_index).  Domain: `ScalarInv` (indexed paths run through
-  sub-documents to scalars); outside it lie the known findings `multikey`, `deadend-null`.
+  Statements only; proofs in Proofs/C06*.lean.  Model: `MongoModel.stepColl` (insert, insert_many,
+  update, replace, upsert, delete, the reads, create_index, drop_index(es), drop), tied to
+  mongomock by the history correspondence of harness/props/c06.py.
+
+  DOMAIN.  `UniqInv` (Spec/Unique.lean): no two documents covered by a unique index have equal
+  keys.  It is stated where indexed paths run through sub-documents to scalars (`ScalarInv`;
+  outside lie the known findings `multikey`, `deadend-null`).  On that domain the statement
+  "every operation preserves `UniqInv`" is still FALSE (`step_uniq_inv_scalar_fails`):
+  `_apply_update` stores an edited document WITHOUT calling `_ensure_uniques` when it is Python-`==`
+  to the one it replaces (known finding `unchanged-branch-skips-check`).  The theorems are
+  therefore `_partial`, with three more hypotheses, each naming what it excludes
+  (Spec/Unique.lean): `KeysDistinctSym` (C05's primary-key invariant, both orientations),
+  `WfDocs` (no association list with a repeated field name, which no Python dict can be),
+  `PfStable` (no partial filter that tells `==`-equal documents apart, such as `{$type: "double"}`).
 -/
 import Proofs.C06
 
 namespace MongoModel.Props.C06
 open MongoModel MongoModel.Spec
 
+/-! ### the invariant -/
+
 /-- The empty collection satisfies the invariant. -/
 theorem init_uniq : UniqInv ({} : Coll) := Proofs.C06.init_uniq
 
-/-- **Every operation preserves uniqueness** as long as the resulting collection stays in the
-    scalar-key domain: whatever write path is taken (insert, insert_many, update, replacement,
-    upsert), successful or rejected, and for index creation and removal. -/
-theorem step_uniq_inv_partial (cfg : Cfg) (now : Int) (c : Coll) (op : Val)
-    (hu : UniqInv c) (hs : ScalarInv c) (hs' : ScalarInv (stepColl cfg now c op).1) :
-    UniqInv (stepColl cfg now c op).1 :=
-  Proofs.C06.step_uniq_inv cfg now c op hu hs hs'
-
-/-- The full statement (no domain hypothesis) is false of the code: array-valued keys are not
-    multikey.  Witness: unique index on `a`, `{a: 2}` then `{a: [1, 2]}` (replayed on the real
-    code as known finding `multikey`). -/
+/-- The unrestricted statement (no domain hypothesis). -/
 def step_uniq_inv_full : Prop :=
   ∀ (cfg : Cfg) (now : Int) (c : Coll) (op : Val), UniqInv c → UniqInv (stepColl cfg now c op).1
 
-/-- A write that would create a duplicate key under a unique index is rejected with
-    DuplicateKeyError (insert path; the collection is left as the expiry pass alone leaves it by
-    C08). -/
-theorem dup_write_rejected (now : Int) (c : Coll) (d : Val) (ix : Index) (p : Val × Val)
+/-- The unrestricted statement is FALSE of the code.  Witness (closed, evaluated in the kernel;
+    `Proofs.C06Lemmas.cexColl`, `cexOp`): unique index on `k` with
+    `partialFilterExpression: {t: {$type: "double"}}`, documents `{_id: 1, k: 5, t: 1.0}` (covered) and
+    `{_id: 2, k: 5, t: 1}` (not covered), `update_one({_id: 2}, {$set: {t: 1.0}})`: the edited document
+    is `==` to the old one, so `_apply_update` reports "not modified" and runs no uniqueness
+    check — and both documents are now covered with key `[5]`
+    (known finding `unchanged-branch-skips-check`).  A second, independent witness is the known
+    finding `multikey` (`{a: 2}` then `{a: [1, 2]}`: array-valued keys are not multikey). -/
+theorem step_uniq_inv_full_fails : ¬ step_uniq_inv_full := Proofs.C06.step_uniq_inv_full_false
+
+/-- The statement restricted to the scalar-key domain only (the first formulation of
+    `step_uniq_inv_partial`). -/
+def step_uniq_inv_scalar : Prop :=
+  ∀ (cfg : Cfg) (now : Int) (c : Coll) (op : Val), UniqInv c → ScalarInv c →
+    ScalarInv (stepColl cfg now c op).1 → UniqInv (stepColl cfg now c op).1
+
+/-- It is FALSE too — same witness: the keys are scalars, the store keys distinct, the documents
+    well-formed; only `PfStable` fails. -/
+theorem step_uniq_inv_scalar_fails : ¬ step_uniq_inv_scalar :=
+  Proofs.C06Lemmas.step_uniq_scalar_false
+
+/-- **Every operation preserves uniqueness** — whatever write path is taken (insert, insert_many,
+    update, replacement, upsert), successful or rejected, and for delete, the reads, index
+    creation and removal — PROVIDED
+    * the resulting collection is in the scalar-key domain (`ScalarInv`; excluded: known findings
+      `multikey`, `deadend-null`) and holds well-formed documents only (`WfDocs`; excluded:
+      association lists with a repeated field name, not Python values);
+    * the store keys before the operation are pairwise different in both orientations of `==`
+      (`KeysDistinctSym`: C05's invariant; excluded: states C05 proves unreachable for scalar `_id`s);
+    * no unique index has a partial filter that tells `==`-equal documents apart (`PfStable`;
+      excluded: known finding `unchanged-branch-skips-check`).
+    Nothing is assumed of the documents BEFORE the operation (not even `ScalarInv c`), nor of the
+    operation. -/
+theorem step_uniq_inv_partial (cfg : Cfg) (now : Int) (c : Coll) (op : Val)
+    (hu : UniqInv c) (hk : KeysDistinctSym c) (hp : PfStable c)
+    (hs' : ScalarInv (stepColl cfg now c op).1) (hw' : WfDocs (stepColl cfg now c op).1) :
+    UniqInv (stepColl cfg now c op).1 :=
+  Proofs.C06.step_uniq_inv_alt cfg now c op hu hk hp hs' hw'
+
+/-- `KeysDistinctSym` follows from C05's `KeysDistinct` when `==` is symmetric on the store keys
+    (scalar, empty and single-field embedded `_id`s: `Props.C05.scalar_symm`, …). -/
+theorem keysDistinctSym_of (c : Coll) (h : KeysDistinct c) (hs : ∀ p ∈ c.docs, SymmVal p.1) :
+    KeysDistinctSym c :=
+  Proofs.C06Lemmas.keysDistinctSym_of h hs
+
+/-- `PfStable` holds when no unique index is partial. -/
+theorem pfStable_of_noPartial (c : Coll)
+    (h : ∀ ix ∈ c.indexes, ix.unique = true → ix.partialFilter = none) : PfStable c := by
+  intro ix hix hu f hf
+  rw [h ix hix hu] at hf
+  cases hf
+
+/-- For a concrete state and operation the hypotheses of `step_uniq_inv_partial` can be
+    discharged by evaluation (`uniqB`, `keysB`, `scalB`, `wfDocsB` decide `UniqInv`,
+    `KeysDistinctSym`, `ScalarInv`, `WfDocs`; `noPartialB`: no unique index is partial). -/
+theorem step_uniq_inv_check (cfg : Cfg) (now : Int) (c : Coll) (op : Val)
+    (h : (Proofs.C06Lemmas.uniqB c && Proofs.C06Lemmas.keysB c && Proofs.C06Lemmas.noPartialB c &&
+      Proofs.C06Lemmas.scalB (stepColl cfg now c op).1 &&
+      Proofs.C06Lemmas.wfDocsB (stepColl cfg now c op).1) = true) :
+    UniqInv (stepColl cfg now c op).1 :=
+  Proofs.C06.step_uniq_inv_check cfg now c op h
+
+/-- non-vacuity of `step_uniq_inv_partial`: a unique index on `k` and a sparse compound unique
+    index on `(a.b, c)`, three documents, and an `update_many` that edits the first document and
+    is rejected (DuplicateKeyError) on the second -/
+example : UniqInv (stepColl {} 0
+    { docs := [(.int 1, .doc [("_id", .int 1), ("k", .int 5), ("a", .doc [("b", .str "x")])]),
+               (.int 2, .doc [("_id", .int 2), ("k", .int 6), ("c", .null)]),
+               (.int 3, .doc [("_id", .int 3), ("k", .int 7), ("a", .doc [("b", .str "x")]), ("c", .int 1)])],
+      indexes := [Index.mk "k_1" [("k", .int 1)] true false none none,
+                  Index.mk "a.b_1_c_-1" [("a.b", .int 1), ("c", .int (-1))] true true none none] }
+    (.arr [.str "update_many", .doc [], .doc [("$set", .doc [("k", .int 9)])], .bool false])).1 :=
+  step_uniq_inv_check _ _ _ _ (by decide +kernel)
+
+/-! ### histories -/
+
+/-- **In every reachable state** (any history from the empty collection, `run`: every step is
+    followed by the harness's observation) no two documents covered by a unique index have equal
+    keys, PROVIDED the final state is in the scalar-key domain with well-formed documents
+    (`ScalarInv`, `WfDocs`) and every state along the history has pairwise different store keys
+    (`KeysDistinctSym`, C05) and no unique index whose partial filter tells `==`-equal documents
+    apart (`PfStable`; excluded: known finding `unchanged-branch-skips-check`).  The intermediate
+    states need NOT be in the scalar-key domain (a document with an array-valued key that is later
+    deleted, expired or overwritten does no harm): the proof carries "uniqueness among the
+    well-formed, scalar-keyed, covered documents", which every operation preserves with no
+    hypothesis on the documents (`Proofs.C06.step_carried`). -/
+theorem reachable_uniq_partial (cfg : Cfg) (ops : List Val)
+    (hd : ∀ n, KeysDistinctSym (run cfg (ops.take n)).2.c ∧ PfStable (run cfg (ops.take n)).2.c)
+    (hs : ScalarInv (run cfg ops).2.c) (hw : WfDocs (run cfg ops).2.c) :
+    UniqInv (run cfg ops).2.c :=
+  Proofs.C06.reachable_uniq_alt cfg ops hd hs hw
+
+/-- For a concrete history the hypotheses of `reachable_uniq_partial` can be discharged by
+    evaluation. -/
+theorem reachable_uniq_check (cfg : Cfg) (ops : List Val)
+    (h : ((List.range (ops.length + 1)).all (fun n =>
+        Proofs.C06Lemmas.keysB (run cfg (ops.take n)).2.c &&
+        Proofs.C06Lemmas.noPartialB (run cfg (ops.take n)).2.c) &&
+      Proofs.C06Lemmas.scalB (run cfg ops).2.c && Proofs.C06Lemmas.wfDocsB (run cfg ops).2.c) = true) :
+    UniqInv (run cfg ops).2.c :=
+  Proofs.C06.reachable_uniq_check cfg ops h
+
+/-- the history used below: unique index, inserts (one rejected: `5 == 5.0`), an unordered
+    insert_many with one rejection, an update_many rejected half-way, an update through the
+    "not modified" branch (`6 → 6.0`), a rejected upserting replacement, a sparse compound unique
+    index, an accepted upsert, an insert rejected by the compound index, an accepted one, a delete -/
+def demoHistory : List Val := [
+  .arr [.str "create_index", .arr [.arr [.str "k", .int 1]], .doc [("unique", .bool true)]],
+  .arr [.str "insert_one", .doc [("_id", .int 1), ("k", .int 5)]],
+  .arr [.str "insert_one", .doc [("_id", .int 2), ("k", .dbl 5 0)]],
+  .arr [.str "insert_many", .arr [.doc [("_id", .int 3), ("k", .int 6)],
+    .doc [("_id", .int 4), ("k", .int 6)], .doc [("_id", .int 5)]], .bool false],
+  .arr [.str "update_many", .doc [], .doc [("$set", .doc [("k", .int 9)])], .bool false],
+  .arr [.str "update_one", .doc [("_id", .int 3)], .doc [("$set", .doc [("k", .dbl 6 0)])], .bool false],
+  .arr [.str "replace_one", .doc [("_id", .int 7)], .doc [("k", .int 9)], .bool true],
+  .arr [.str "create_index", .arr [.arr [.str "a.b", .int 1], .arr [.str "c", .int (-1)]],
+    .doc [("unique", .bool true), ("sparse", .bool true)]],
+  .arr [.str "update_one", .doc [("_id", .int 8)],
+    .doc [("$set", .doc [("a.b", .str "x"), ("k", .int 10)])], .bool true],
+  .arr [.str "insert_one", .doc [("_id", .int 9), ("k", .int 11), ("a", .doc [("b", .str "x")])]],
+  .arr [.str "insert_one", .doc [("_id", .int 10), ("k", .int 12), ("a", .doc [("b", .str "x")]), ("c", .int 1)]],
+  .arr [.str "delete_one", .doc [("_id", .int 1)]]]
+
+/-- non-vacuity of `reachable_uniq_partial` -/
+example : UniqInv (run {} demoHistory).2.c := reachable_uniq_check _ _ (by decide +kernel)
+
+/-- … and what happened along `demoHistory`: which steps were rejected, the final `_id`s -/
+example : (run {} demoHistory).1.map (fun r => r.1.isErr) =
+      [false, false, true, true, true, false, true, false, false, true, false, false] ∧
+    (run {} demoHistory).2.c.docs.map (fun p => p.1 == Val.int 3 || p.1 == Val.int 5 || p.1 == Val.int 8
+      || p.1 == Val.int 10) = [true, true, true, true] ∧
+    (run {} demoHistory).2.c.indexes.map (·.name) = ["k_1", "a.b_1_c_-1"] := by
+  decide +kernel
+
+/-! ### a duplicate write is rejected -/
+
+/-- the first formulation of the rejection theorem: "… is rejected with a WriteError" -/
+def dup_write_rejected_full : Prop :=
+  ∀ (now : Int) (c : Coll) (d : Val) (ix : Index) (p : Val × Val),
+    ScalarInv c → ix ∈ c.indexes → ix.unique = true → c.ttlIndexes = [] → p ∈ c.docs →
+    covers ix p.2 = true → covers ix (patchDT d) = true → scalarKeys ix (patchDT d) = true →
+    keyEq (keyVals ix p.2) (keyVals ix (patchDT d)) = true →
+    (∃ fs, d = .doc fs ∧ dhas "_id" fs = true) →
+    ∃ e, insertDoc now c d = .error e ∧ e.isWriteError = true
+
+/-- It is FALSE: the insert is rejected, but an earlier check can raise something else first.
+    Witness: `{_id: [], k: 5}` against `{_id: 1, k: 5}` under a unique index on `k` — the list `_id` is
+    unhashable and `insert_one` raises TypeError.  (Likewise: another unique index, earlier in the
+    index dict, whose own query raises — `{b: {$foo: 1}}` gives OperationFailure.) -/
+theorem dup_write_rejected_full_fails : ¬ dup_write_rejected_full :=
+  Proofs.C06Lemmas.dup_write_writeError_false
+
+/-- **A write that would create a duplicate key under a unique index is rejected** (insert path;
+    no TTL index: expiry is C09's business): if a stored document covered by the index has the
+    key of the new document, which is covered too, `insert_one` raises — whatever the other
+    indexes and documents are.  (The collection is left as the expiry pass alone leaves it:
+    C08.) -/
+theorem dup_write_rejected_partial (now : Int) (c : Coll) (d : Val) (ix : Index) (p : Val × Val)
     (hs : ScalarInv c) (hix : ix ∈ c.indexes) (hu : ix.unique = true) (hnt : c.ttlIndexes = [])
     (hp : p ∈ c.docs) (hcp : covers ix p.2 = true) (hcd : covers ix (patchDT d) = true)
     (hsd : scalarKeys ix (patchDT d) = true)
     (heq : keyEq (keyVals ix p.2) (keyVals ix (patchDT d)) = true)
     (hid : ∃ fs, d = .doc fs ∧ dhas "_id" fs = true) :
-    ∃ e, insertDoc now c d = .error e ∧ e.isWriteError = true :=
-  Proofs.C06.dup_write_rejected now c d ix p hs hix hu hnt hp hcp hcd hsd heq hid
+    ∃ e, insertDoc now c d = .error e :=
+  Proofs.C06.dup_write_rejected_alt now c d ix p hs hix hu hnt hp hcp hcd hsd heq hid
 
-/-- Creating a unique index over data that already contains duplicates fails and leaves no
-    index behind. -/
+/-- … **with DuplicateKeyError**, PROVIDED the `_id` is storable (`hk`; excluded: list `_id`s,
+    TypeError), `ix` is the only unique index (`hone`; excluded: another unique index whose own
+    query raises first) and the partial filter of `ix` raises on no stored document (`hpf`). -/
+theorem dup_write_rejected_dupkey (now : Int) (c : Coll) (d : Val) (ix : Index) (p : Val × Val)
+    (hs : ScalarInv c) (hix : ix ∈ c.indexes) (hu : ix.unique = true) (hnt : c.ttlIndexes = [])
+    (hp : p ∈ c.docs) (hcp : covers ix p.2 = true) (hcd : covers ix (patchDT d) = true)
+    (hsd : scalarKeys ix (patchDT d) = true)
+    (heq : keyEq (keyVals ix p.2) (keyVals ix (patchDT d)) = true)
+    (hid : ∃ fs, d = .doc fs ∧ dhas "_id" fs = true)
+    (hk : ∃ k, storeKey (idOfDoc (patchDT d)) = .ok k)
+    (hone : ∀ i ∈ c.indexes, i.unique = true → i = ix)
+    (hpf : ∀ f, ix.partialFilter = some f → ∀ q ∈ c.docs, ∃ b, filterApplies f q.2 = .ok b) :
+    insertDoc now c d = .error .dupKey :=
+  Proofs.C06.dup_write_rejected_dupkey_alt now c d ix p hs hix hu hnt hp hcp hcd hsd heq hid hk hone hpf
+
+/-- the unique index of the examples below: on `k`, restricted to the documents with `live: true` -/
+def demoIx : Index :=
+  Index.mk "k_1" [("k", .int 1)] true false none (some (.doc [("live", .bool true)]))
+
+/-- a covered document with key `[5]`, and one the partial filter leaves out -/
+def demoColl : Coll :=
+  { docs := [(.int 1, .doc [("_id", .int 1), ("k", .int 5), ("live", .bool true)]),
+             (.int 2, .doc [("_id", .int 2), ("k", .int 5)])],
+    indexes := [Index.mk "n_1" [("n", .int 1)] false false none none, demoIx] }
+
+/-- non-vacuity of `dup_write_rejected_partial` and `dup_write_rejected_dupkey`: inserting
+    `{_id: 3, k: 5.0, live: true}` (`5.0 == 5`) raises DuplicateKeyError -/
+example : insertDoc 0 demoColl (.doc [("_id", .int 3), ("k", .dbl 5 0), ("live", .bool true)]) =
+    .error .dupKey :=
+  dup_write_rejected_dupkey 0 demoColl _ demoIx
+    (.int 1, .doc [("_id", .int 1), ("k", .int 5), ("live", .bool true)])
+    ((Proofs.C06Lemmas.scalB_iff _).1 (by decide +kernel)) (by simp [demoColl]) rfl rfl
+    (by simp [demoColl]) (by decide +kernel) (by decide +kernel) (by decide +kernel)
+    (by decide +kernel) ⟨_, rfl, by decide +kernel⟩ ⟨.int 3, rfl⟩
+    (by
+      intro i hi hu
+      simp only [demoColl, List.mem_cons, List.not_mem_nil, or_false] at hi
+      rcases hi with rfl | rfl
+      · cases hu
+      · rfl)
+    (by
+      intro f hf q hq
+      cases hf
+      simp only [demoColl, List.mem_cons, List.not_mem_nil, or_false] at hq
+      rcases hq with rfl | rfl
+      · exact ⟨true, by decide +kernel⟩
+      · exact ⟨false, by decide +kernel⟩)
+
+/-! ### `create_index` -/
+
+/-- Creating a unique index over data that already contains duplicates fails with
+    DuplicateKeyError and leaves no index behind (non-sparse, non-partial index under a new name,
+    scalar keys; no TTL index). -/
 theorem create_over_dups_fails_clean (now : Int) (c : Coll) (ix : Index) (a b : Val × Val)
     (hu : ix.unique = true) (hnt : c.ttlIndexes = []) (hnew : ∀ i ∈ c.indexes, i.name ≠ ix.name)
     (hsc : ∀ p ∈ c.docs, scalarKeys ix p.2 = true) (hpf : ix.partialFilter = none)
@@ -50,13 +258,44 @@ theorem create_over_dups_fails_clean (now : Int) (c : Coll) (ix : Index) (a b : 
     (createIndexColl now c ix).1.indexes = c.indexes :=
   Proofs.C06.create_over_dups_fails_clean now c ix a b hu hnt hnew hsc hpf hns hab heq
 
+/-- non-vacuity: `{k: 5}`, `{k: 6}`, `{k: 5.0}`; the first and the third clash -/
+example :
+    let c : Coll := { docs := [(.int 1, .doc [("_id", .int 1), ("k", .int 5)]),
+                               (.int 2, .doc [("_id", .int 2), ("k", .int 6)]),
+                               (.int 3, .doc [("_id", .int 3), ("k", .dbl 5 0)])] }
+    let ix : Index := Index.mk "k_1" [("k", .int 1)] true false none none
+    (createIndexColl 0 c ix).2 = .error .dupKey ∧ (createIndexColl 0 c ix).1.indexes = c.indexes := by
+  intro c ix
+  refine create_over_dups_fails_clean 0 c ix (.int 1, .doc [("_id", .int 1), ("k", .int 5)])
+    (.int 3, .doc [("_id", .int 3), ("k", .dbl 5 0)]) rfl rfl (fun i hi => by cases hi) ?_ rfl rfl
+    (.cons_cons _ (.cons _ (.cons_cons _ .slnil))) (by decide +kernel)
+  intro p hp
+  simp only [c, List.mem_cons, List.not_mem_nil, or_false] at hp
+  rcases hp with rfl | rfl | rfl <;> decide +kernel
+
 /-- A successful creation of a (non-sparse, non-partial) unique index establishes uniqueness for
-    that index. -/
+    that index, whatever the documents are. -/
 theorem create_establishes_uniq (now : Int) (c c' : Coll) (ix : Index) (name : String)
-    (hu : ix.unique = true) (hsc : ∀ p ∈ c.docs, scalarKeys ix p.2 = true)
-    (hpf : ix.partialFilter = none) (hns : ix.sparse = false)
+    (hu : ix.unique = true) (hpf : ix.partialFilter = none) (hns : ix.sparse = false)
     (h : createIndexColl now c ix = (c', .ok name)) :
     c'.docs.Pairwise (fun a b => keyEq (keyVals ix a.2) (keyVals ix b.2) = false) :=
-  Proofs.C06.create_establishes_uniq now c c' ix name hu hsc hpf hns h
+  Proofs.C06.create_establishes_uniq now c c' ix name hu hpf hns h
+
+/-- For ANY unique index (sparse, partial, compound): after a successful creation no two documents
+    the index covers have equal keys.  (The pre-check skips a sparse document only when ALL its
+    indexed fields are missing, and a partial one when the filter says no: it skips no covered
+    document.) -/
+theorem create_establishes_uniq_covered (now : Int) (c c' : Coll) (ix : Index) (name : String)
+    (hu : ix.unique = true) (h : createIndexColl now c ix = (c', .ok name)) :
+    (c'.docs.filter (fun p => covers ix p.2)).Pairwise
+      (fun a b => keyEq (keyVals ix a.2) (keyVals ix b.2) = false) :=
+  Proofs.C06.create_establishes_uniq_covered now c c' ix name hu h
+
+/-- non-vacuity of both: the partial index `demoIx` can be created over `demoColl`'s documents
+    (equal keys, but only one of them covered), and so can a plain unique index on `_id` -/
+example :
+    (createIndexColl 0 { demoColl with indexes := [] } demoIx).2 = .ok "k_1" ∧
+    (createIndexColl 0 demoColl (Index.mk "i" [("_id", .int 1)] true false none none)).2 = .ok "i" := by
+  decide +kernel
 
 end MongoModel.Props.C06
